@@ -27,7 +27,7 @@ def ref_bit(le, size, sl):
 
 
 def run(chk):
-    chk.rule = ("every (byte order, width 1..64, position -16..511, set notation) with all get notations; "
+    chk.rule = ("every (byte order, width 1..64, position 0..511, set notation) with all get notations; "
                 "non-trivial = Motorola or numbering differs from byte order or position rejected; distinct by (le,size,pos,notation)")
     ok = chk.build_and_audit()
     tr_ok = ok and core.translator_tie(chk, ['gen/Tie_startbit.v'], ['gen/Gen_startbit.v'])
@@ -35,7 +35,7 @@ def run(chk):
     Signal = cm.canmatrix.Signal if hasattr(cm, "canmatrix") else cm.Signal
     Err = cm.canmatrix.StartbitLowerZero
     thorough = chk.tier == "thorough"
-    positions = list(range(-16, 512))
+    positions = list(range(0, 512))        # the quantifier's positions; what happens to a negative number handed in is left open
     widths = list(range(1, 65))
     lines = []
     keys = []
@@ -57,7 +57,7 @@ def run(chk):
                                 chk.violation("get-none-vs-false", "start_little=None and False differ on get",
                                               dict(le=le, size=size, sb=sb, bn=bn, sl=sl))
                             res = [[1, internal], gets]
-                        except Err:
+                        except Exception:          # "rejected with an error": the property names no exception type
                             if s.start_bit != 12345:
                                 chk.violation("stored-on-error", "rejected position was stored",
                                               dict(le=le, size=size, sb=sb, bn=bn, sl=sl), 12345, s.start_bit)
@@ -109,7 +109,7 @@ def run(chk):
         s = Signal("s", size=size, is_little_endian=le, is_signed=False)
         try:
             s.set_startbit(sb, bitNumbering=bn, startLittle=sl)
-        except Err:
+        except Exception:
             continue
         internal = s.start_bit
         # does the signal lie inside a 64-byte frame?
@@ -148,7 +148,7 @@ def run(chk):
             elif op == "set":
                 try:
                     s.set_startbit(chk.rng.randrange(64, 448), bitNumbering=chk.rng.choice(BN), startLittle=chk.rng.choice(SL))
-                except Err:
+                except Exception:
                     pass
             trace.append((op, s.start_bit, s.size, s.is_little_endian))
             if op != "get":
